@@ -11,7 +11,8 @@
 //	multi <ncpu> <execerhex|->:<fullhash>,…  -> <root> <titlehex>:<start>:<count>:<hash>;…
 //
 // spec tokens: g<seed>.<start>.<count> | x<64hex> | z | t<k> | e
-// arg 1: "all" (every section), "multi" (roots + multi-layer) or "roots" (only the root sweep).
+// arg 1: "all" (every section), "multi" (roots + multi-layer), "roots" (only the root sweep) or
+// "node" (node.go: blocks delivered to a testnode, proofs asked through ProcQueryTxMsg).
 package main
 
 import (
@@ -700,7 +701,7 @@ func sectionBranches(r *gen.Rand, seed uint64) {
 		for n := 0; n <= 70; n++ {
 			ns = append(ns, n)
 		}
-		for i := 0; i < 20; i++ {
+		for i := 0; i < 12; i++ {
 			ns = append(ns, 70+r.Intn(900))
 		}
 	}
@@ -741,7 +742,7 @@ func sectionDupTail(r *gen.Rand, seed uint64) {
 	for n := 1; n <= lim; n++ {
 		ns = append(ns, n)
 	}
-	for i := 0; i < gen.Scale(10, 200); i++ {
+	for i := 0; i < gen.Scale(6, 200); i++ {
 		ns = append(ns, lim+r.Intn(gen.Scale(2500, 3500)))
 	}
 	for _, n := range ns {
@@ -750,7 +751,7 @@ func sectionDupTail(r *gen.Rand, seed uint64) {
 		for k := 1; k <= n; k *= 2 {
 			ks = append(ks, k)
 		}
-		if n <= 40 {
+		if n <= gen.Scale(24, 40) {
 			ks = ks[:0]
 			for k := 1; k <= n; k++ {
 				ks = append(ks, k)
@@ -871,6 +872,10 @@ func main() {
 	part := "all"
 	if len(os.Args) > 1 {
 		part = os.Args[1]
+	}
+	if part == "node" {
+		runNode()
+		return
 	}
 	seed := gen.Seed()
 	// the leaf lists of sectionRoots must be identical in every run of one check (the orchestrator
